@@ -206,12 +206,13 @@ theorem C14_model_meets_spec_form (inflate : Bytes → Option Bytes) (typ msg lo
   have hpe : escapedIs (htmlEscape p) p = true := hesc p
   unfold escapedIs at hpe
   simp only [Bool.and_eq_true, Bool.not_eq_true', beq_iff_eq] at hpe
+  have h60 : 60 ∉ htmlEscape p := by simpa using hpe.1.1
+  have hrelay : escapedIs sRelayState sRelayState = true := by decide
   simp only [beq_self_eq_true, Bool.true_and, List.map_cons, List.map_nil, instVal_hole]
   by_cases he : rs.isEmpty = true
-  · simp [he, formTemplate_fields_norelay, instVal_hole, fieldsOk, formVals, hesc, hpe.1.1, hpe.1.2, hpe.2, hdel]
+  · simp [he, formTemplate_fields_norelay, instVal_hole, fieldsOk, formVals, hesc, h60, hpe.1.2, hpe.2, hdel]
   · have he' : rs.isEmpty = false := by simpa using he
-    simp [he', formTemplate_fields_relay, instVal_hole, instVal_lit, fieldsOk, formVals, hesc, hpe.1.1, hpe.1.2, hpe.2, hdel]
-    decide
+    simp [he', formTemplate_fields_relay, instVal_hole, instVal_lit, fieldsOk, formVals, hesc, h60, hpe.1.2, hpe.2, hdel, hrelay]
 
 /-! ## 3. HTTP-Redirect and the artifact URL -/
 
@@ -282,7 +283,8 @@ theorem C14_redirect_art_roundtrip (deflate : Bytes → Bytes) (inflate : Bytes 
     (h : redirectUrl deflate true sSAMLart art loc rs = some url) :
     specRedirect inflate sSAMLart art loc rs url = true := by
   have hargs : redirectArgs deflate sSAMLart art rs = some (withRelay (sSAMLart, art) rs) := by
-    simp [redirectArgs]; decide
+    have h1 : ¬ (sSAMLart = sSAMLRequest ∨ sSAMLart = sSAMLResponse) := by decide
+    simp [redirectArgs, h1]
   simp only [redirectUrl, hargs, glueUrl, if_true] at h
   cases Option.some.inj h
   have := glue_spec loc _ _ (urlencode_no_hash _) (withRelay_roundtrip sSAMLart art rs isBytes_SAMLart hart hne hrs) hloc
@@ -337,7 +339,8 @@ theorem C14_soap_string_decl_partial (x m l : Nat) (body ws e : List Nat)
     simp only [List.cons_append, List.take_succ_cons, List.take_zero, List.map_cons, List.map_nil, sXmlDeclStart]
     simp only [List.cons.injEq] at hx
     obtain ⟨h1, h2, h3, _⟩ := hx
-    simp [h1, h2, h3, asciiLower]
+    rw [h1, h2, h3]
+    decide
   have hx' : x ≠ 62 ∧ m ≠ 62 ∧ l ≠ 62 := by
     simp only [List.cons.injEq] at hx
     obtain ⟨h1, h2, h3, _⟩ := hx
